@@ -148,9 +148,63 @@ func checkC08(c *core.Ctx) {
 		}
 		probes = append(probes, probe{"total-over-2^28", p, model.Flags{}})
 	}
+	// deltas that only become too long by accumulation (consecutive rests, idle tracks of a long piece)
+	for _, k := range []int{2, 3, 5, 17} {
+		var rests []model.Instance
+		for i := 0; i < k; i++ {
+			rests = append(rests, model.Instance{Values: []model.Frac{{Num: 200000, Den: 1}}})
+		}
+		mid := append(append([]model.Instance{{Chord: ch(), Values: one()}}, rests...), model.Instance{Chord: ch(), Values: one()})
+		probes = append(probes, probe{fmt.Sprintf("%d-consecutive-rests-of-200000-beats", k), model.Piece{Inst: mid}, model.Flags{}})
+		probes = append(probes, probe{fmt.Sprintf("%d-consecutive-rests-of-200000-beats-track3", k), model.Piece{Inst: mid}, model.Flags{Track: 3}})
+		probes = append(probes, probe{fmt.Sprintf("%d-trailing-rests-of-200000-beats", k), model.Piece{Inst: append([]model.Instance{{Chord: ch(), Values: one()}}, rests...)}, model.Flags{Track: 2}})
+	}
+	{
+		var p model.Piece
+		for i := 0; i < 40; i++ {
+			p.Inst = append(p.Inst, model.Instance{Chord: ch(), Values: []model.Frac{{Num: 10000, Den: 1}}})
+		}
+		for _, n := range []int{2, 8, 32} {
+			probes = append(probes, probe{fmt.Sprintf("total-over-2^28-track%d", n), p, model.Flags{Track: n}})
+		}
+	}
 	for _, n := range []int{127, 128, 255, 256, 1000, 65535, 65536, 65537} {
 		probes = append(probes, probe{fmt.Sprintf("track-%d", n), model.Piece{Inst: []model.Instance{{Chord: ch(), Values: one()}, {Values: one()}, {Chord: ch(), Values: one()}}}, model.Flags{Track: n}})
 	}
+	// the -o file may exist already (longer, from an earlier run): the new file must still be well-formed
+	c.Stream("overwrite", c.N(60, 600), func(i int, r *rand.Rand) {
+		long := model.RandPiece(r, model.GenOpts{MinLen: 12, MaxLen: 20, RestProb: 0.1, SettingProb: 0.2, TextProb: 0.5, KeyChanges: true, MaxDeg: 7})
+		shortp := model.RandPiece(r, model.GenOpts{MinLen: 1, MaxLen: 2, RestProb: 0.1, MaxDeg: 7, NoSettings: true})
+		if !long.Effective(model.Flags{}).AllInRange() || !shortp.Effective(model.Flags{}).AllInRange() {
+			return
+		}
+		f := model.Flags{Track: 1 + r.Intn(3)}
+		path := c.Scratch.Path("reused.mid")
+		for k, p := range []model.Piece{long, shortp} {
+			args := append(append([]string{"write"}, f.Args()...), "-o", path)
+			res := run(c, p.YAML(model.YAMLStyle{}), args...)
+			c.Eval(1)
+			if infra(c, res) {
+				return
+			}
+			if a := abnormal(res); a != "" || !res.OK() {
+				c.Violate("overwrite", i, "overwrite:failed", "crd write -o fails on a valid document "+a, withYAML(obs(res), p))
+				return
+			}
+			b := readFileOrNil(path)
+			file, derr := decodeSMF(b)
+			if file == nil {
+				c.Violate("overwrite", i, fmt.Sprintf("overwrite:malformed:run%d", k), fmt.Sprintf("crd write -o onto an existing file (run %d to the same path) leaves bytes that are not a well-formed MIDI file: %s", k+1, derr), withYAML(pieceDesc(p, f), p))
+				return
+			}
+			if probs := smfdec.Structural(file, f.Tracks()); len(probs) > 0 {
+				c.Violate("overwrite", i, "overwrite:structure", probs[0], withYAML(pieceDesc(p, f), p))
+				return
+			}
+		}
+		c.Nontrivial(fmt.Sprintf("overwrite%d", i))
+	})
+
 	c.Stream("boundary", len(probes), func(i int, r *rand.Rand) {
 		pr := probes[i]
 		judgeWellFormed(c, "boundary", i, pr.p, pr.f, writeOpts{}, "boundary:"+pr.name)
